@@ -38,7 +38,7 @@ where
             ("max_exclusive", &self.max_exclusive),
         ];
         for (name, value) in bounds {
-            if let Some(value) = value.as_ref().and_then(|v| v.trim().parse::<i32>().ok()) {
+            if let Some(value) = value.as_ref().and_then(|v| v.trim().parse::<i64>().ok()) {
                 writeln!(writer, "   {name}: Some({value}), ")?;
             }
         }
